@@ -12,7 +12,7 @@ from __future__ import annotations
 import torch
 
 import inferno
-from inferno import neural, observe, RecordTensor
+from inferno import neural, observe, RecordTensor, ShapedTensor
 
 from rv import factory as fac
 
@@ -75,7 +75,11 @@ def _records(mod):
     for name, m in mod.named_modules():
         for attr, v in vars(m).items():
             if isinstance(v, RecordTensor):
-                out[f"{name}.{attr}"] = {"recordsz": v.recordsz, "dt": v.dt, "duration": v.duration, "inclusive": v.inclusive}
+                out[f"{name}.{attr}"] = {"recordsz": v.recordsz, "dt": v.dt, "duration": v.duration, "inclusive": v.inclusive,
+                                         "dtype": str(v.value.dtype)}
+            elif isinstance(v, ShapedTensor):
+                # plain constrained state (voltage, refrac, adaptation, ...): its element type is part of what a setter must keep
+                out[f"{name}.{attr}"] = {"dtype": str(v.value.dtype)}
     return out
 
 
@@ -341,7 +345,7 @@ def run_case(ctx, desc):
     if ra != rb:
         diff = [k for k in set(ra) | set(rb) if ra.get(k) != rb.get(k)]
         k0 = sorted(diff)[0]
-        fields = [f for f in ("recordsz", "dt", "duration", "inclusive") if (ra.get(k0) or {}).get(f) != (rb.get(k0) or {}).get(f)]
+        fields = [f for f in ("recordsz", "dt", "duration", "inclusive", "dtype") if (ra.get(k0) or {}).get(f) != (rb.get(k0) or {}).get(f)]
         last = desc["seq"][-1][0] if desc["seq"] else "-"
         keyset = sorted({k for k, _ in desc["seq"]})
         return ctx.violation(f"{kind}.internal_history_sized_differently.{'+'.join(fields)}",
@@ -355,7 +359,15 @@ def run_case(ctx, desc):
     except Exception as e:  # noqa: BLE001
         return ctx.violation(ctx.exc_signature(e, f"drive.{kind}"), f"{type(e).__name__}: {str(e)[:160]}", desc)
     ctx.count("output_comparisons")
+    ra, rb = _records(A), _records(B)
+    bad = sorted(k for k in set(ra) | set(rb) if (ra.get(k) or {}).get("dtype") != (rb.get(k) or {}).get("dtype"))
+    if bad:
+        return ctx.violation(f"{kind}.state_dtype_differs_from_constructor_built_after_use",
+                             f"state {bad[0]}: setter-built holds {ra.get(bad[0])}, constructor-built {rb.get(bad[0])}", desc)
     for i, (a, b) in enumerate(zip(xa, xb)):
+        if a.dtype != b.dtype:
+            return ctx.violation(f"{kind}.output_dtype_differs_from_constructor_built",
+                                 f"output {i}: setter-built gives {a.dtype}, constructor-built {b.dtype}", desc)
         same = a.shape == b.shape and (bool(torch.equal(a, b)) if a.dtype == torch.bool else bool(torch.allclose(a, b, rtol=1e-6, atol=1e-6, equal_nan=True)))
         if not same:
             keyset = sorted({k for k, _ in desc["seq"]})
